@@ -14,6 +14,29 @@ deriving Repr, DecidableEq
 
 def gem : Url := "gemini://".toList
 
+/-- the exceptions `_get_with_redirects` can end in (`fuel`: the translation's recursion fuel ran out) -/
+inductive RErr where
+  | loop | tooMany | missing | fetchErr | fuel
+deriving Repr, DecidableEq
+
+/-- `is_redirect` (protocol/status.py): `30 <= status < 40` -/
+def isRedirectStatus (s : Nat) : Bool := decide (30 ≤ s) && decide (s < 40)
+
+/-- `GeminiResponse.status` -/
+def Resp.status : Resp → Nat
+  | .final s => s
+  | .redirect s _ => s
+
+/-- `GeminiResponse.redirect_url`: the meta of a 3x response, `None` otherwise -/
+def Resp.redirectUrl : Resp → Option Url
+  | .final _ => none
+  | .redirect _ t => some t
+
+/-- the constructor of a response agrees with its status code (how the harness and the driver build them) -/
+def Resp.wf : Resp → Bool
+  | .final s => !isRedirectStatus s
+  | .redirect s _ => isRedirectStatus s
+
 /-- `_get_with_redirects` (repaired bound).  `fetch u = none` models an exception from the hop.
     Returns the result and the list of URLs actually connected to, in order. -/
 def follow (fetch : Url → Option Resp) (max : Nat) : Nat → Url → List Url → Result × List Url
